@@ -157,6 +157,17 @@ func bigValues() []value {
 			out = append(out, value{name: fmt.Sprintf("map<string,i32>#%d/%s", size, pat), s: tbin.MapS(tbin.Sc(tbin.STRING), tbin.Sc(tbin.I32)), big: true})
 		}
 	}
+	// a partner for the 17-entry chain-end maps (N=34, keys 33, 67, 101 wrap around the table end): 18 entries (N=36)
+	// whose key 67 ends up in slot 34, i.e. right behind the table of the 17-entry map when that is loaded on the
+	// same tree afterwards (31, 32, 33 fill the slots in front of it)
+	for _, kt := range []tbin.Type{tbin.I32, tbin.I64} {
+		m := &tbin.Val{T: tbin.MAP, KT: kt, ET: tbin.I32}
+		for i, k := range []int64{31, 32, 33, 67, 1, 2, 3, 4, 5, 6, 7, 8, 9, 10, 11, 12, 13, 14} {
+			m.K = append(m.K, &tbin.Val{T: kt, I: k})
+			m.L = append(m.L, tbin.I32v(int32(8000+i)))
+		}
+		out = append(out, value{name: fmt.Sprintf("map<%s,i32>#seq-stale-slot-behind-table-of-17", kt), s: tbin.MapS(tbin.Sc(kt), tbin.Sc(tbin.I32)), v: m, big: true})
+	}
 	// sequential key families: the same keys recur in loads of different sizes (stale-slot reuse scenarios)
 	// (the last two ranges: negative keys - the slot of a key is key mod table size)
 	for _, rng := range [][2]int64{{0, 16}, {0, 17}, {0, 32}, {0, 33}, {16, 32}, {16, 33}, {1, 17}, {-17, 0}, {-20, 13}} {
